@@ -9,7 +9,8 @@ import PyxModel.Sql.Printer
 
   Phase order of `populate`: classes, unique identifiers, associations, instances, connections.
   The first exception ends the build:
-    meta    : MetaModelException (duplicate class, association with key lists of different length or naming an
+    meta    : MetaModelException (duplicate class, attribute names of one class that coincide after upper-casing
+              -- declared or inferred from a named INSERT --, association with key lists of different length or naming an
               unknown identifying attribute),
               UnknownClassException (association / identifier / …), MetaException (unknown type in `new`)
     parsing : ParsingException (a value that `deserialize_value` cannot read for its column type;
@@ -68,11 +69,22 @@ def dictSet (k : Name) (v : List Name) : List (Name × List Name) → List (Name
   | [] => [(k, v)]
   | (k', v') :: rest => if k' = k then (k, v) :: rest else (k', v') :: dictSet k v rest
 
-/-- `define_class` -/
+/-- no text occurs twice -/
+def distinctB : List Text → Bool
+  | [] => true
+  | x :: xs => !xs.contains x && distinctB xs
+
+/-- the loop of `define_class` over the attributes: `if name.upper() in unames: raise MetaModelException`; it
+    completes exactly when no two attribute names coincide after upper-casing -/
+def attrNamesOk (u : UC) (attrs : List (Name × Name)) : Bool := distinctB (attrs.map fun a => u.upper a.1)
+
+/-- `define_class`: the class name is looked up first, then the attribute names are compared -/
 def defineClass (u : UC) (s : BState) (kind : Name) (attrs : List (Name × Name)) : Except BuildErr BState :=
   match s.find? u kind with
   | some _ => .error .metaErr
-  | none => .ok { s with classes := s.classes ++ [⟨kind, attrs, [], [], []⟩] }
+  | none =>
+    if attrNamesOk u attrs then .ok { s with classes := s.classes ++ [⟨kind, attrs, [], [], []⟩] }
+    else .error .metaErr
 
 /-- phase 1: `populate_classes` -/
 def popClasses (u : UC) : List Stmt → BState → Except BuildErr BState
@@ -166,14 +178,23 @@ def isNamed : Option (List Name) → Bool
   | some (_ :: _) => true
   | _ => false
 
-/-- `if stmt.kind.upper() not in metamodel.metaclasses: _populate_matching_class(...)` -/
+/-- the attributes `_populate_matching_class` hands to `define_class` -/
+def inferredFor (u : UC) (named : Bool) (ns : List Name) (values : List Text) : List (Name × Name) :=
+  if named then inferredAttrs u ns values else inferredAttrs u (positionalNames values.length) values
+
+/-- does the `define_class` call of `_populate_matching_class` complete?  (no call when the class exists; the names
+    `_0`, `_1`, … never collide, the names of a named INSERT can) -/
+def inferOk (u : UC) (s : BState) (kind : Name) (named : Bool) (ns : List Name) (values : List Text) : Bool :=
+  match s.find? u kind with
+  | some _ => true
+  | none => attrNamesOk u (inferredFor u named ns values)
+
+/-- `if stmt.kind.upper() not in metamodel.metaclasses: _populate_matching_class(...)`, when `inferOk` -/
 def ensureClass (u : UC) (s : BState) (kind : Name) (named : Bool) (ns : List Name) (values : List Text) : BState :=
   match s.find? u kind with
   | some _ => s
   | none =>
-    let attrs := if named then inferredAttrs u ns values
-                 else inferredAttrs u (positionalNames values.length) values
-    { s with classes := s.classes ++ [⟨kind, attrs, [], [], []⟩] }
+    { s with classes := s.classes ++ [⟨kind, inferredFor u named ns values, [], [], []⟩] }
 
 def cellsOf (u : UC) (c : ClassB) (named : Bool) (ns : List Name) (values : List Text) : Except BuildErr (List Cell) :=
   if named then namedCells u ns values c.attrs else positionalCells u c c.attrs values
@@ -182,6 +203,7 @@ def cellsOf (u : UC) (c : ClassB) (named : Bool) (ns : List Name) (values : List
 def popInstance (u : UC) (s : BState) (kind : Name) (values : List Text) (names : Option (List Name)) :
     Except BuildErr BState :=
   if isNamed names && (names.getD []).length != values.length then .error .parseErr else
+  if !inferOk u s kind (isNamed names) (names.getD []) values then .error .metaErr else
   match (ensureClass u s kind (isNamed names) (names.getD []) values).find? u kind with
   | none => .error .metaErr                   -- unreachable
   | some c =>
